@@ -531,6 +531,30 @@ func (e *env) run(prop string) int {
 			}
 		}
 	}
+	// Witnesses of the open findings of this property run on every check, in the
+	// first job of the family that is named in the entry, so that each listed
+	// finding is observed again (or seen to have gone) whatever the seed.
+	witnesses := map[string][]json.RawMessage{}
+	for _, fd := range findings.Findings {
+		if fd.Status == "open" && fd.Property == prop && fd.Family != "" && len(fd.Witness) > 0 {
+			witnesses[fd.Family] = append(witnesses[fd.Family], fd.Witness)
+		}
+	}
+	given := map[string]bool{}
+	for i := range queue {
+		f := queue[i].j.Family
+		if w := witnesses[f]; len(w) > 0 && !given[f] {
+			given[f] = true
+			nj := *queue[i].j
+			nj.Params = map[string]string{}
+			for k, v := range queue[i].j.Params {
+				nj.Params[k] = v
+			}
+			wb, _ := json.Marshal(w)
+			nj.Params["witnesses"] = string(wb)
+			queue[i].j = &nj
+		}
+	}
 	out := &outcome{known: map[string]*kf.Finding{}, knownCount: map[string]int{}, counters: map[string]int64{}, sets: map[string]map[string]bool{}}
 	var mu sync.Mutex
 	sem := make(chan struct{}, maxProcs)
@@ -674,6 +698,13 @@ func (e *env) run(prop string) int {
 	sort.Strings(ids)
 	for _, id := range ids {
 		fmt.Printf("KNOWN-FINDING: property=%s %s (id=%s, seen %d times)\n", prop, out.known[id].What, id, out.knownCount[id])
+	}
+	for _, fd := range findings.Findings {
+		if fd.Status == "open" && fd.Property == prop && out.known[fd.ID] == nil {
+			// Not a failure: this is what a later repair looks like. The entry
+			// suppresses nothing when nothing matches it.
+			fmt.Printf("NOTE: known finding %s (property %s) was not observed in this run; the entry may be stale\n", fd.ID, prop)
+		}
 	}
 	exit := 0
 	// group fresh violations by monitor/class and write one replay per group
